@@ -32,6 +32,11 @@ CHECKS = {
          'Whole-domain enumeration of RVint words and per-field enumeration of aux words x backgrounds x output selections x dtypes x Box/ppd; coverage counters are verified against the closed-form domain sizes in finalize().',
          'reference decoders written from the documented bit layout (vf/c04_ref.py); PID words per field x 16 backgrounds rather than 2^64',
          'DESIGN.md 4/C04'),
+ 'C06': ('exploration',
+         'exhaustive enumeration of single particles on a per-axis coordinate alphabet (cell centres, half-cell edges +-ulp, domain boundaries, out-of-range with wrap) x grid shapes x dtypes x offsets x weights x thread/partition settings through tsc_parallel, _tsc_scatter, cic_serial and get_field, against the continuous TSC/CIC kernel evaluated in long double; pairs/multi-particle sets for additivity and rolls',
+         'Every cell of every deposit is compared with the continuous kernel (zero tolerance outside the support, bitwise where inputs are exactly representable), plus conservation, non-negativity, additivity, accumulation and roll-by-whole-cells including across the boundary and at the value BoxSize; reduced sweeps are repeated under NUMBA_BOUNDSCHECK=1 with guard zones.',
+         'reference kernel in vf/c06_ref.py; grids up to 8 cells per axis; TSC thin grids tracked in C11, stripe concurrency in C07',
+         'DESIGN.md 4/C06'),
  'C07': ('model_checking',
          'exhaustive configuration enumeration on the real tsc_parallel front end + dynamic partial-order reduction (Bernstein independence of every concurrently processed stripe pair on the access log of the real _tsc_parallel/_tsc_scatter twins) + stateless CHESS-style schedule exploration with preemption bounding',
          'Every (grid size, nthread, npartition incl. default, axis) is decided by the real front end; for every accepted multi-stripe configuration the twins run on a boundary probe set and all same-phase stripe pairs are shown to touch disjoint cells, which makes all interleavings one Mazurkiewicz trace; small configurations and any conflicting one are additionally explored schedule by schedule (bounds 0,1,2) against the serial deposit. The explorer is self-checked on a seeded unsafe partition of the real kernel at every run.',
@@ -42,6 +47,11 @@ CHECKS = {
          'For every configuration of the alphabet the integer mode counts must be reproducible by some assignment of near-edge shells, and the weighted sums (power, k, Legendre) must match within a float32 error bound; counts must be identical for every thread count and every virtual schedule, and per-thread accumulator rows must be private.',
          'reference enumerates the full n1d^3 mesh with fftfreq wavenumbers in float64; on-edge shells may fall either side',
          'DESIGN.md 4/C08'),
+ 'C09': ('exploration',
+         'exhaustive factorial host/particle tables (mass x multiplicity/weight x secondary ranks x stored random on/around every cumulative slice marker) x all 7 tracer subsets x parameter sets x RSD x observer x thread count through gen_gal_cat, every host decided and every galaxy row compared by an independent plain-numpy HOD reference',
+         'Each host/particle of each run is decided (must / may / must not carry tracer T) by the reference threshold rule with widths from the package occupation functions; every galaxy is traced back to its host (id, mass, position, velocity-bias formulas, RSD shift and wrap); cross-run relations: earlier tracers bit-identical when a later one is enabled, nesting in ic, centrals first with Ncent.',
+         'randoms within 1e-12 of a slice edge may fall either side; stored random exactly 0 before a disabled LRG slot tolerated; NFW path out of scope',
+         'DESIGN.md 4/C09'),
  'C10': ('model_checking',
          'exhaustive enumeration of host/particle table sizes x tracer subsets x thread counts: compiled with real threads (bitwise vs one thread) + interpreted twins of gen_gals/gen_cent/gen_sats/fast_concatenate/_searchsorted_parallel with dynamic partial-order reduction (pairwise Bernstein independence of prange bodies), uninitialised-read and every-output-written checks, and real execution of all n! body orders for Nthread <= 4',
          'For every (H, P) in the size alphabet (0, 1, fewer than threads, not divisible by threads) and every tracer subset the catalogue is bitwise identical for Nthread 1..16; the twins show that the per-thread bodies of every parallel region are pairwise independent (so every interleaving is the same Mazurkiewicz trace), that no output element is left unwritten or read before written, for virtual thread counts up to 40.',
